@@ -1204,6 +1204,7 @@ type runResult struct {
 	steps [][]*itemSpec // executed TPM-relevant steps
 	flags [][]bool
 	proc  *bootengine.BootProcess
+	bad   string // the executed steps/actions cannot be matched with the intended items
 }
 
 // stepFlags: for the actions bound to items, whether an issue was recorded at their index
@@ -1240,24 +1241,34 @@ func stepFlags(sr bootengine.StepResult, st []*itemSpec) []bool {
 
 func runGenerated(kind string, p *platform, items []*itemSpec) *runResult {
 	steps := group(items)
+	r := &runResult{kind: kind, plat: p, steps: steps}
+	ctx.Begin("running a boot flow built from the public constructors", "pkg/bootflow/bootengine: BootProcess.Finish", r.descr())
 	p.state.SetFlow(types.NewFlow("c01-"+kind, realize(steps)))
 	proc := bootengine.NewBootProcess(p.state)
 	proc.Finish(bg)
+	r.proc = proc
 	if len(proc.Log) != len(steps) {
-		panic(fmt.Sprintf("harness: %d steps executed, %d intended", len(proc.Log), len(steps)))
+		r.bad = fmt.Sprintf("the flow has %d steps but %d were executed", len(steps), len(proc.Log))
+		return r
 	}
-	r := &runResult{kind: kind, plat: p, proc: proc}
 	for i, st := range steps {
 		if !p.bind(st, proc.Log[i].Actions) {
-			panic(fmt.Sprintf("harness: cannot bind the actions of step %d (%T)", i, proc.Log[i].Step))
+			var as []string
+			for _, a := range proc.Log[i].Actions {
+				as = append(as, fmt.Sprintf("%T", a))
+			}
+			r.bad = fmt.Sprintf("step %d (%T) yielded the actions %v, which are not the actions of its items (TPMInit: 1; InitTPM(l, withLog): 1 + one EV_NO_ACTION log entry per hash bank; LogInit: one per hash bank; TPMEvent/TPMExtend/TPMEventLogAdd: 1; PCR0_DATA: an extend and a log entry, or a panic, per bank)",
+				i, proc.Log[i].Step, as)
+			return r
 		}
-		r.steps = append(r.steps, st)
 		r.flags = append(r.flags, stepFlags(proc.Log[i], st))
 	}
 	return r
 }
 
 func runBuiltin(kind string, p *platform, flow types.Flow) *runResult {
+	ctx.Begin("running the built-in flow "+flow.Name+" on the bundled fake Intel firmware", "pkg/bootflow/flows", map[string]interface{}{
+		"flow": flow.Name, "txt_registers": p.hasRegs, "ACM_POLICY_STATUS": fmt.Sprintf("%#x", p.reg)})
 	p.state.SetFlow(flow)
 	proc := bootengine.NewBootProcess(p.state)
 	proc.Finish(bg)
@@ -1311,6 +1322,11 @@ func cmdLit(c tpm.Command) string {
 
 // judge observes everything, runs the oracle and emits the case
 func judge(r *runResult) {
+	if r.bad != "" {
+		ctx.Count("flow whose executed actions are not those of its items (no case)")
+		ctx.OracleFail(-1, r.bad, "pkg/bootflow/steps/tpmsteps, pkg/bootflow/steps/intelsteps: Step.Actions", r.descr())
+		return
+	}
 	p := r.plat
 	t := p.tpm
 	s := p.state
@@ -1699,6 +1715,9 @@ func judge(r *runResult) {
 			expect(okPairs && n == len(cs.cmds) && (n == 4 || n == 1),
 				fmt.Sprintf("the commands issued for a TPMEvent are not (extend, log-add) pairs carrying hash(alg, ConvertedBytes) of the data its references denote (%d commands)", len(cs.cmds)),
 				"pkg/bootflow/actions/tpmactions/tpm_event.go:Apply / pkg/bootflow/types/data.go:RawBytes")
+			if n == 1 {
+				expect(len(measuredBy[a]) == 0, "a TPMEvent whose first extend was refused is recorded in MeasuredData", "pkg/bootflow/actions/tpmactions/tpm_event.go:Apply")
+			}
 			if n == 4 {
 				mi := measuredBy[a]
 				expect(len(mi) == 1 && measRead[mi[0]] && bytes.Equal(measBytes[mi[0]], m.conv.b),
@@ -1893,7 +1912,13 @@ func main() {
 		f := builtin[i%len(builtin)]
 		r := runBuiltin("builtin:"+f.Name, p, f)
 		if r == nil {
-			ctx.Count("builtin flow with a reference the harness cannot describe (skipped)")
+			// does not happen on the code as it is: every TPM step of the built-in flows is one the harness can
+			// describe (InitTPM, LogInit, PCR0_DATA, TPMEvent/TPMExtend/TPMEventLogAdd over image, raw-bytes or
+			// TXT-register references)
+			ctx.Count("builtin flow the harness cannot describe (no case)")
+			ctx.OracleFail(-1, "a step of the built-in flow "+f.Name+" does not yield the actions of its kind (InitTPM: init + one EV_NO_ACTION log entry per hash bank when logging; PCR0_DATA: extend + log entry per bank), or measures a reference of an unknown kind",
+				"pkg/bootflow/flows, pkg/bootflow/steps/tpmsteps, pkg/bootflow/steps/intelsteps", map[string]interface{}{
+					"flow": f.Name, "image": "bundled fake Intel firmware", "txt_registers": i%7 != 6, "ACM_POLICY_STATUS": fmt.Sprintf("%#x", reg)})
 			continue
 		}
 		judge(r)
